@@ -1,26 +1,30 @@
 ------------------------------ MODULE AggCache ------------------------------
 (* C03, third clause: the per-aggregator match cache never changes the      *)
-(* answer.  An aggregator decides for a metric name whether it consumes it; *)
-(* it may remember the decision per name (entry: decision + last-seen time) *)
-(* and a periodic clean-up may drop any entries not seen for 100 x wait.    *)
+(* answer.  An aggregator decides for a metric name whether it consumes it  *)
+(* and under which output name it aggregates it; it may remember that pair  *)
+(* per name (entry: decision + output name + last-seen time) and a periodic *)
+(* clean-up may drop any entries not seen for 100 x wait.                   *)
 (* Property: whatever the history of lookups, clock jumps and clean-ups,    *)
-(* the answer given equals the answer computed afresh (Matcher!Accept).     *)
+(* the answer given equals the answer computed afresh, in BOTH components   *)
+(* (Matcher!Accept, Matcher!OutKey) - in particular the decision is never   *)
+(* inferred from the remembered output name.                                *)
 EXTENDS AggCacheOps
 
 \* -- the state machine, model-checked for small constants
-CONSTANTS CNames, CFilters, CWait, CTimes, CBug
-VARIABLES filt, cache, now, last
-cvars == <<filt, cache, now, last>>
+CONSTANTS CNames, CAggs, CWait, CTimes, CBug
+VARIABLES filt, tmpl, cache, now, last
+cvars == <<filt, tmpl, cache, now, last>>
 
-CInit == filt \in CFilters /\ cache = <<>> /\ now = 0 /\ last = [n |-> <<>>, ans |-> Accept(filt, <<>>)]
-Advance == \E t \in CTimes : t > now /\ now' = t /\ UNCHANGED <<filt, cache, last>>
-Lookup(n) == /\ last' = [n |-> n, ans |-> Answer(filt, cache, n, CBug)]
-             /\ cache' = Remember(filt, cache, n, now, CBug)
-             /\ UNCHANGED <<filt, now>>
-Expire == cache' \in Cleaned(cache, now, CWait) /\ UNCHANGED <<filt, now, last>>
+CInit == /\ \E a \in CAggs : filt = a.f /\ tmpl = a.t
+         /\ cache = <<>> /\ now = 0 /\ last = [n |-> <<>>, ans |-> FreshAns(filt, tmpl, <<>>)]
+Advance == \E t \in CTimes : t > now /\ now' = t /\ UNCHANGED <<filt, tmpl, cache, last>>
+Lookup(n) == /\ last' = [n |-> n, ans |-> Answer(filt, tmpl, cache, n, CBug)]
+             /\ cache' = Remember(filt, tmpl, cache, n, now, CBug)
+             /\ UNCHANGED <<filt, tmpl, now>>
+Expire == cache' \in Cleaned(cache, now, CWait) /\ UNCHANGED <<filt, tmpl, now, last>>
 CNext == Advance \/ (\E n \in CNames : Lookup(n)) \/ Expire
 CSpec == CInit /\ [][CNext]_cvars
 
-CachedIsFresh == last.ans = Accept(filt, last.n)
-EntriesFresh  == Fresh(filt, cache)
+CachedIsFresh == last.ans = FreshAns(filt, tmpl, last.n)
+EntriesFresh  == Fresh(filt, tmpl, cache)
 =============================================================================
